@@ -381,8 +381,24 @@ Definition revocations_frame (h : hdr) (p o : obs) (exc : addr -> rkey -> bool) 
                | None => true
                end) (revq_of p)) (h_issuers h).
 
+(* the passage of time / of ledgers changes nothing that was stored: registries, identities, held
+   claims, keys, nonces, revocation flags, links (everything observed except the clock, the
+   issuers' verdicts and verify_identity, which depend on the timestamp through expiry only) *)
+Definition strip_cd (c : option cdetail) : option (claim * option (option bool * bool * Z)) :=
+  match c with Some cd => Some (cd_claim cd, cd_info cd) | None => None end.
+Definition static_eqb (p o : obs) : bool :=
+  list_eqb cti_obs_eqb (o_ctis p) (o_ctis o) && list_eqb irs_obs_eqb (o_irss p) (o_irss o)
+  && list_eqb (fun a b => list_eqb (list_eqb cid_eqb) (do_ids a) (do_ids b)
+                          && list_eqb (list_eqb (opt_eqb (pair_eqb claim_eqb (opt_eqb info_eqb))))
+                               (map (map strip_cd) (do_claims a)) (map (map strip_cd) (do_claims b)))
+       (o_idents p) (o_idents o)
+  && list_eqb issuer_obs_eqb (o_issuers p) (o_issuers o)
+  && opt_eqb N.eqb (vo_cti (o_ver p)) (vo_cti (o_ver o)) && opt_eqb N.eqb (vo_irs (o_ver p)) (vo_irs (o_ver o)).
+
 Definition mon_call (h : hdr) (prev : option obs) (k : call) (out : outcome) (o : obs) : bool :=
   match k, out with
+  | Advance _, Ok _ | Ledger _ _, Ok _ =>
+      match prev with Some p => static_eqb p o | None => true end
   | Invalidate i d t, Ok _ =>
       match prev with
       | Some p =>
